@@ -418,7 +418,10 @@ prop("C20", level="exploration",
 
 prop("C04", level="fault_enumeration",
      stages=[dict(pkg="fullstack", test="TestC04", sub="termination", race=True, vary_gomaxprocs=True,
-                  cases=dict(quick=640, thorough=2560), timeout=3600)],
+                  cases=dict(quick=640, thorough=2560), timeout=3600),
+             # trigger while the request is queued again after pause + unpause (single worker kept busy by a filler request)
+             dict(pkg="fullstack", test="TestC04Requeued", sub="requeued", race=True, vary_gomaxprocs=True,
+                  cases=dict(quick=150, thorough=1200), timeout=3600)],
      technique="runtime monitoring: consumer-side channel monitors (closed-by-quiescence as bounded liveness, error identity) and a wire-log monitor for the Cancel message, over enumerated trigger kinds x logical positions (fabric gates) x responder kinds (real / scripted with every terminal code / silent) x extras (pause, hook errors, injected send failures); process crash = send on closed channel; Go race detector",
      level_text=("Small DAGs; trigger in {terminal status delivered, context cancel, cancel API} x position in {immediately, while queued (single worker occupied), "
                  "after j response messages with the responder then held by a fabric gate, after terminal delivery} x responder in {real, scripted with each of "
@@ -427,7 +430,7 @@ prop("C04", level="fault_enumeration",
                  "by the time the system is quiescent (confirmed over a 3 s sustained-quiescence window); Cancel() returns; a cancellation issued while "
                  "completion was impossible yields RequestClientCancelledErr and a Cancel on the wire (or an attempted send under injected faults); a failure "
                  "status yields an error of the same type and text as status.AsError(); late deliveries after close are harmless (no panic)."),
-     level_note="'Eventually' is decided as bounded progress up to logical quiescence. Cancellations racing with completion accept either outcome but always require termination.",
+     level_note="'Eventually' is decided as bounded progress up to logical quiescence. Cancellations racing with completion accept either outcome but always require termination. Stage requeued constructs the state 'paused, unpaused, waiting for a worker' (one outgoing worker, occupied by a request to a silent peer) and applies context cancel / API cancel / each failure status there.",
      rule=("One evaluation = one scenario. Non-trivial = executed and decided; distinct by (responder, trigger, position, extra, code, j, size); "
            "distinct_sets.scenario_kinds = distinct (responder, trigger, position, extra) combinations."),
      min_nontrivial=dict(quick=300, thorough=4000),
